@@ -280,6 +280,17 @@ def reset_run_state(seed=0):
     UUID.reset()
     MEMFS.clear()
     numpy.random.seed(seed & 0xFFFFFFFF)
+    reset_global_defaults()
+
+
+def reset_global_defaults():
+    """Isolation between scenarios: a previous scenario may have polluted the shared mutable default
+    ``absence_time_list=[]`` of simulate()/backward_simulate() (that pollution itself is C09's business)."""
+    M = env.M
+    for fn in (M.bp.BaseProject.simulate, M.bp.BaseProject.backward_simulate):
+        d = fn.__defaults__
+        if d and any(isinstance(x, list) and x for x in d):
+            fn.__defaults__ = tuple([] if isinstance(x, list) else x for x in d)
 
 
 def attach(project):
